@@ -223,6 +223,14 @@ def run_large(outcome, tier, seed):
     inputs.append(("json", ('["' + body + '"]').encode()))
     inputs.append(("msgpack", b"".join(corpus.mp({"n": i, "s": "\u00e9" * (i % 50)}) for i in range(3000))))
     inputs.append(("toml", ('s = "' + body + '"\n' + "".join("k%d = %d\n" % (i, i) for i in range(3000))).encode()))
+    # documents at and around each parser's nesting limit: whatever the verdict is, it is the same for both supply modes
+    for d in (127, 128, 129):
+        inputs.append(("json", b"[" * d + b"1" + b"]" * d))
+        inputs.append(("json", b'{"a":' * d + b"1" + b"}" * d + b" [1]"))
+        inputs.append(("yaml", b"[" * d + b"1" + b"]" * d + b"\n"))
+    for d in (1023, 1024):
+        inputs.append(("msgpack", b"\x91" * d + b"\xc0"))
+        inputs.append(("msgpack", b"\x81\xa1k" * d + b"\x90"))
     reqs, plans = [], []
     for fmt, data in inputs:
         for frm in (fmt, None):
